@@ -116,7 +116,6 @@ impl MT205 {
 
         verify_parser_complete(&parser)?;
 
-
         Ok(MT205 {
             transaction_reference,
             related_reference,
